@@ -43,6 +43,14 @@ def container_events(fnode, T, cfg):
                 if isinstance(tg, ast.Subscript):
                     out.append(Event("store", T.of(tg.value), T.of(tg.slice),
                                      (), {}, tg, n, T.of(n.value)))
+                elif isinstance(tg, (ast.Tuple, ast.List)):
+                    # (d[k], x) = value : element i of the value is stored
+                    vt = T.of(n.value)
+                    for i, el in enumerate(tg.elts):
+                        if isinstance(el, ast.Subscript):
+                            out.append(Event(
+                                "store", T.of(el.value), T.of(el.slice), (),
+                                {}, el, n, ("item", vt, i)))
         elif isinstance(n, ast.AugAssign) and isinstance(
                 n.target, ast.Subscript):
             out.append(Event("aug", T.of(n.target.value),
